@@ -5,6 +5,10 @@
 //! is read back with the harness' own base64/gzip reader (`model::codec`), so every full-state
 //! comparison is against bytes the library did not produce or interpret for us.
 
+use identity_core::convert::FromJson;
+use identity_core::convert::ToJson;
+use serde_json::json;
+use serde_json::Value;
 use crate::engine::*;
 use crate::fixture;
 use crate::model::codec::*;
@@ -762,6 +766,42 @@ fn check_cred(purpose: Purpose, fragment: bool, init: Init, ops: &[CredOp], obs:
           };
           vensure!(obs, rep != Reported::Revoked && rep != Reported::Suspended, sig, "{what}: reported {rep:?}");
           obs.label(if *purpose_match && *list_match { "reported-not-set" } else { "mismatch-not-reported" });
+        }
+        // The verifier's route: the status-list credential arrives as JSON, and the credential's status entry is the
+        // W3C spelling (statusListIndex as a string) written by someone else. The verdict has to be the same.
+        if check != StatusCheck::SkipAll && *idx < len {
+          let reloaded = catch(|| slc.to_json().and_then(|j| StatusList2021Credential::from_json(&j)));
+          let literal: Status = fixture!(
+            Status::from_json_value(json!({
+              "id": format!("{}#{idx}", c.credential_status.as_ref().map(|s| s.id.as_str().split('#').next().unwrap_or("").to_string()).unwrap_or_default()),
+              "type": "StatusList2021Entry",
+              "statusPurpose": if entry_purpose == Purpose::Revocation { "revocation" } else { "suspension" },
+              "statusListIndex": idx.to_string(),
+              "statusListCredential": c.credential_status.as_ref().and_then(|s| s.properties.get("statusListCredential").cloned()).unwrap_or(Value::Null),
+            })),
+            "literal status entry"
+          );
+          let mut c_literal = c.clone();
+          c_literal.credential_status = Some(literal);
+          match reloaded {
+            Ok(Ok(slc2)) => {
+              for (route, cred, list) in [("reloaded list credential", &c, &slc2), ("literal status entry", &c_literal, &slc), ("both", &c_literal, &slc2)] {
+                let rep2 = match catch(|| JwtCredentialValidatorUtils::check_status_with_status_list_2021(cred, list, check)) {
+                  Ok(r) => reported(&r),
+                  Err(p) => return obs.fail("validator-panics", format!("check_status_with_status_list_2021 ({route}) panicked: {}", p.msg)),
+                };
+                vensure!(
+                  obs,
+                  rep2 == rep,
+                  "validator-verdict-depends-on-route",
+                  "{what}: reported {rep:?} for the values the library built and {rep2:?} with the {route} read from JSON"
+                );
+              }
+              obs.label("validated-through-json-routes");
+            }
+            Ok(Err(e)) => vfail!(obs, "credential-own-json-rejected", "{what}: the status-list credential's own JSON does not read back: {e}"),
+            Err(p) => vfail!(obs, "validator-panics", "reloading the status-list credential panicked: {}", p.msg),
+          }
         }
       }
     }
